@@ -15,7 +15,8 @@ MANIFEST = dict(
          "Wait() returns while the previous teardown is still running, log s1 s2 t1 ...) is a second known finding, modelled (overlapLog), proved non-sequential and driven on the real code (mode=tdrace). "
          "Tie: kind `resub` - a scripted cold source whose n-th subscription plays the n-th outcome (inside Subscribe, or from a goroutine), with event log, "
          "counters and live gauge; model and real operators run on the same cases, trace + log + attempts + live + condition evaluations must be equal; plus a "
-         "model-independent oracle (sequential log, closed-form attempt count, forwarded values, terminal) on the implementation result.",
+         "model-independent oracle (sequential log, closed-form attempt count, forwarded values, terminal) on the implementation result."
+         ' decoy=1: the same operator VALUE applied to a second, counting upstream after the pipeline under test was built - never subscribed, nothing else changes.',
     technique="Lean 4 proof (recursive model of each loop = closed-form specification, by induction on the outcome list / condition sequence / count) + differential correspondence",
     ref='5/C15')
 
